@@ -485,6 +485,7 @@ func TestMain(m *testing.M) {
 
 func TestBindings(t *testing.T) { driver.RunBindings(t) }
 func TestC02(t *testing.T)      { driver.RunC02(t) }
+func TestC02Build(t *testing.T) { driver.RunC02Build(t) }
 func TestC03(t *testing.T)      { driver.RunC03(t) }
 func TestC16(t *testing.T)      { driver.RunC16(t) }
 func TestScopes(t *testing.T)   { driver.RunScopes(t) }
